@@ -333,6 +333,20 @@ theorem C15_cell_colour (h w : Nat) (stages : List Stage) (hf : ∀ s ∈ stages
   rw [asList_getElem? _ hg' r c hcw, get?_findReplaceNone, hc r c hr hcw]
   cases Matrix.cell ⟨h, w, stages⟩ r c <;> rfl
 
+/-- a block that stages nothing (it is empty, or its stages stand in branches not taken and
+loops that make no pass): the matrix handed to the device wrapper still has `h * w` cells, every
+one carrying the default colour -/
+theorem C15_no_stage_all_default (h w : Nat) (d : List Val) :
+    ∃ g, Grid.overlayAll (Grid.new h w) [] = some g ∧
+      (Grid.asList (Grid.findReplaceNone g d)).length = h * w ∧
+      ∀ r c, r < h → c < w →
+        (Grid.asList (Grid.findReplaceNone g d))[r * w + c]? = some (some d) := by
+  obtain ⟨g, h1, h2, h3⟩ := C15_cell_colour h w [] (by intro s hs; cases hs) d
+  refine ⟨g, h1, h2, ?_⟩
+  intro r c hr hc
+  rw [h3 r c hr hc]
+  simp [Matrix.cell]
+
 /-! ## 2. rectangle normalisation: inclusive ranges, omitted end, omitted clause -/
 
 /-- an omitted `row` (or `column`) clause means the full extent -/
